@@ -52,12 +52,24 @@ Lemma join_around : forall xs M ys, join (L " , ") (xs ++ M :: ys) = pfx xs ++ M
 Proof. induction xs as [|x xs IH]; intros M ys; [apply join_mid_sfx|].
   cbn [app]. rewrite join_cons by (destruct xs; discriminate). rewrite IH. cbn [pfx flat_map]. rewrite <- !app_assoc. reflexivity. Qed.
 
-(* ------------------------------------------------------------------ email / url flags *)
+(* ------------------------------------------------------------------ side items: email / url flags and other validators *)
 Inductive flag := FE | FU.
 Definition ftext (f : flag) : str := match f with FE => L "email" | FU => L "url" end.
 Definition fitem (f : flag) : item := match f with FE => IEmail None | FU => IUrl None end.
 Definition flag_eqb (a b : flag) : bool := match a, b with FE, FE | FU, FU => true | _, _ => false end.
-Definition has_flag (g : flag) (l : list flag) : bool := existsb (flag_eqb g) l.
+(* an item beside the length / range validator: a flag, or any other validator of the validator crate
+   ( custom (function = ..), must_match (other = ..), required, nested, .. ) *)
+Inductive side := SdF (f : flag) | SdO (name : str) (kv : option (list (str * str))).
+Definition sitem (s : side) : item := match s with SdF f => fitem f | SdO n kv => IOther n kv end.
+Definition stext (s : side) : str := item_text (sitem s).
+(* the exact side condition under which another validator is inert: its PRINTED text contains none of the four
+   keywords parse_validator_attributes searches the whole token string for *)
+Definition scan_kws : list string := ["email"; "url"; "length"; "range"]%string.
+Definition inert (X : str) : bool := forallb (fun kw => negb (contains kw X)) scan_kws.
+Definition side_ok (s : side) : bool := match s with SdF _ => true | SdO n kv => inert (item_text (IOther n kv)) end.
+Definition sflag (g : flag) (s : side) : bool := match s with SdF f => flag_eqb g f | SdO _ _ => false end.
+Definition has_flag (g : flag) (l : list side) : bool := existsb (sflag g) l.
+Definition sides_ok (l : list side) : Prop := forallb side_ok l = true.
 Definition is_some {A} (o : option A) : bool := match o with Some _ => true | None => false end.
 Lemma is_some_pre : forall x o, is_some (pre x o) = is_some o.
 Proof. intros x [[a b]|]; reflexivity. Qed.
@@ -67,85 +79,126 @@ Lemma pre_nil : forall o, pre [] o = o.
 Proof. intros [[a b]|]; reflexivity. Qed.
 
 Definition lr_kw (p : string) : Prop := p = "length"%string \/ p = "range"%string.
-Lemma pfx_skip : forall p, lr_kw p -> forall fl X,
-  fs (L p) (pfx (map ftext fl) ++ X) = pre (pfx (map ftext fl)) (fs (L p) X).
-Proof. intros p Hp fl X. induction fl as [|f fl IH]; [cbn [map pfx flat_map app]; rewrite pre_nil; reflexivity|].
-  cbn [map pfx flat_map]. fold (pfx (map ftext fl)). rewrite <- !app_assoc.
-  rewrite (app_assoc (ftext f) (L " , ")). rewrite fs_app_clean by (destruct Hp as [-> | ->]; destruct f; vm_compute; reflexivity).
-  rewrite IH, pre_pre. rewrite <- !app_assoc. reflexivity. Qed.
-Lemma sfx_shape : forall fl, sfx (map ftext fl) = [] \/ exists y, sfx (map ftext fl) = " " :: y.
-Proof. intros [|f fl]; [left; reflexivity|right]. cbn [map sfx flat_map app L list_ascii_of_string]. eexists. reflexivity. Qed.
-Lemma sfx_none : forall p, lr_kw p -> forall fl, fs (L p) (sfx (map ftext fl)) = None.
-Proof. intros p Hp fl. induction fl as [|f fl IH]; [destruct Hp as [-> | ->]; reflexivity|].
-  cbn [map sfx flat_map]. fold (sfx (map ftext fl)).
-  destruct (sfx_shape fl) as [E | [y E]]; rewrite E in *.
-  - rewrite app_nil_r. destruct Hp as [-> | ->]; destruct f; vm_compute; reflexivity.
-  - rewrite fs_app_q by (destruct Hp as [-> | ->]; destruct f; vm_compute; reflexivity). rewrite IH. reflexivity. Qed.
+Lemma inert_fs : forall X, inert X = true -> forall kw, In kw scan_kws -> fs (L kw) X = None.
+Proof. intros X H kw Hin. unfold inert in H. rewrite forallb_forall in H. specialize (H kw Hin). apply negb_true_iff in H.
+  unfold contains in H. rewrite find_sub_fs in H. destruct (fs (L kw) X); [discriminate|reflexivity]. Qed.
+(* K1: a side item does not contain length / range *)
+Lemma side_no_lr : forall p, lr_kw p -> forall s, side_ok s = true -> fs (L p) (stext s) = None.
+Proof. intros p Hp [f|n kv] Hs.
+  - destruct Hp as [-> | ->]; destruct f; vm_compute; reflexivity.
+  - cbn [side_ok] in Hs. unfold stext. cbn [sitem]. apply (inert_fs _ Hs). destruct Hp as [-> | ->]; cbn; tauto. Qed.
+(* K2: it contains email / url exactly when it is that flag *)
+Lemma side_flag_none : forall g s, side_ok s = true -> sflag g s = false -> fs (ftext g) (stext s) = None.
+Proof. intros g [f|n kv] Hs Hg.
+  - cbn [sflag] in Hg. destruct g, f; try discriminate Hg; vm_compute; reflexivity.
+  - cbn [side_ok] in Hs. unfold stext. cbn [sitem]. destruct g; apply (inert_fs _ Hs); cbn; tauto. Qed.
+Lemma side_flag_here : forall g s, sflag g s = true -> stext s = ftext g.
+Proof. intros g [f|n kv] Hg; [|discriminate Hg]. cbn [sflag] in Hg. destruct g, f; try discriminate Hg; reflexivity. Qed.
+
+(* the separator [ , ] cannot overlap a keyword *)
+Lemma fs_skip1 : forall pat q y, has q pat = false -> pat <> [] -> fs pat (q :: y) = pre [q] (fs pat y).
+Proof. intros pat q y Hq Hne. rewrite fs_unfold. destruct pat as [|a p]; [contradiction|]. cbn [starts].
+  unfold has in Hq. cbn [existsb] in Hq. apply orb_false_iff in Hq as [Hqa _]. rewrite Ascii.eqb_sym in Hqa. rewrite Hqa. reflexivity. Qed.
+Definition kw_pat (pat : str) : Prop := has " " pat = false /\ has "," pat = false /\ pat <> [].
+Lemma fs_sep : forall pat Y, kw_pat pat -> fs pat (L " , " ++ Y) = pre (L " , ") (fs pat Y).
+Proof. intros pat Y [H1 [H2 H3]]. cbn [L list_ascii_of_string app].
+  rewrite (fs_skip1 pat " ") by assumption. rewrite (fs_skip1 pat ",") by assumption. rewrite (fs_skip1 pat " ") by assumption.
+  rewrite !pre_pre. reflexivity. Qed.
+Lemma fs_item_sep : forall pat X Y, kw_pat pat -> fs pat X = None ->
+  fs pat (X ++ L " , " ++ Y) = pre (X ++ L " , ") (fs pat Y).
+Proof. intros pat X Y Hk Hn. pose proof Hk as [H1 _]. cbn [L list_ascii_of_string app].
+  rewrite (fs_app_q X pat " " _ Hn H1). change (" " :: "," :: " " :: Y) with (L " , " ++ Y). rewrite (fs_sep pat Y Hk), pre_pre. reflexivity. Qed.
+Lemma fs_sep_item : forall pat X, kw_pat pat -> fs pat X = None -> fs pat (L " , " ++ X) = None.
+Proof. intros pat X Hk Hn. rewrite (fs_sep pat X Hk), Hn. reflexivity. Qed.
+Lemma lr_pat : forall p, lr_kw p -> kw_pat (L p).
+Proof. intros p [-> | ->]; repeat split; discriminate. Qed.
+Lemma flag_pat : forall g, kw_pat (ftext g).
+Proof. intros [|]; repeat split; discriminate. Qed.
+
+Lemma pfx_skip : forall p, lr_kw p -> forall fl X, sides_ok fl ->
+  fs (L p) (pfx (map stext fl) ++ X) = pre (pfx (map stext fl)) (fs (L p) X).
+Proof. intros p Hp fl X. induction fl as [|f fl IH]; intros Hok; [cbn [map pfx flat_map app]; rewrite pre_nil; reflexivity|].
+  unfold sides_ok in Hok. cbn [forallb] in Hok. apply andb_true_iff in Hok as [Hf Hok].
+  cbn [map pfx flat_map]. fold (pfx (map stext fl)). rewrite <- !app_assoc.
+  rewrite fs_item_sep by (auto using lr_pat, side_no_lr).
+  rewrite (IH Hok), pre_pre. rewrite <- !app_assoc. reflexivity. Qed.
+Lemma sfx_shape : forall (ys : list str), sfx ys = [] \/ exists y, sfx ys = " " :: y.
+Proof. intros [|f fl]; [left; reflexivity|right]. cbn [sfx flat_map app L list_ascii_of_string]. eexists. reflexivity. Qed.
+Lemma sfx_none : forall p, lr_kw p -> forall fl, sides_ok fl -> fs (L p) (sfx (map stext fl)) = None.
+Proof. intros p Hp fl. induction fl as [|f fl IH]; intros Hok; [destruct Hp as [-> | ->]; reflexivity|].
+  unfold sides_ok in Hok. cbn [forallb] in Hok. apply andb_true_iff in Hok as [Hf Hok].
+  cbn [map sfx flat_map]. fold (sfx (map stext fl)). rewrite <- app_assoc.
+  rewrite fs_sep by (apply lr_pat; exact Hp).
+  destruct (sfx_shape (map stext fl)) as [E | [y E]].
+  - rewrite E, app_nil_r, (side_no_lr p Hp f Hf). reflexivity.
+  - pose proof (IH Hok) as Hs. rewrite E in *. rewrite fs_app_q by (auto using side_no_lr; destruct Hp as [-> | ->]; reflexivity).
+    rewrite Hs. reflexivity. Qed.
 
 Lemma fs_here : forall p X, fs p (p ++ X) = Some ([], X).
 Proof. intros p X. rewrite fs_unfold, starts_app, skipn_app_len. reflexivity. Qed.
-Lemma flag_pfx : forall g fl X,
-  is_some (fs (ftext g) (pfx (map ftext fl) ++ X)) = has_flag g fl || is_some (fs (ftext g) X).
-Proof. intros g fl X. induction fl as [|f fl IH]; [reflexivity|].
-  cbn [map pfx flat_map has_flag existsb]. fold (pfx (map ftext fl)). fold (has_flag g fl). rewrite <- !app_assoc.
-  destruct (flag_eqb g f) eqn:E.
-  - assert (g = f) by (destruct g, f; try discriminate; reflexivity). subst f. rewrite fs_here. reflexivity.
-  - rewrite (app_assoc (ftext f) (L " , ")).
-    rewrite fs_app_clean by (destruct g, f; try discriminate E; vm_compute; reflexivity).
-    rewrite is_some_pre, IH. reflexivity. Qed.
-Lemma flag_sfx : forall g fl, is_some (fs (ftext g) (sfx (map ftext fl))) = has_flag g fl.
-Proof. intros g fl. induction fl as [|f fl IH]; [destruct g; reflexivity|].
-  cbn [map sfx flat_map has_flag existsb]. fold (sfx (map ftext fl)). fold (has_flag g fl). rewrite <- !app_assoc.
-  rewrite fs_app_clean by (destruct g; vm_compute; reflexivity). rewrite is_some_pre.
-  destruct (flag_eqb g f) eqn:E.
-  - assert (g = f) by (destruct g, f; try discriminate; reflexivity). subst f. rewrite fs_here. reflexivity.
-  - rewrite fs_app_clean by (destruct g, f; try discriminate E; vm_compute; reflexivity).
-    rewrite is_some_pre, IH. reflexivity. Qed.
-(* ------------------------------------------------------------------ one attribute: flags around a canonical validator *)
+Lemma flag_pfx : forall g fl X, sides_ok fl ->
+  is_some (fs (ftext g) (pfx (map stext fl) ++ X)) = has_flag g fl || is_some (fs (ftext g) X).
+Proof. intros g fl X. induction fl as [|f fl IH]; intros Hok; [reflexivity|].
+  unfold sides_ok in Hok. cbn [forallb] in Hok. apply andb_true_iff in Hok as [Hf Hok].
+  cbn [map pfx flat_map has_flag existsb]. fold (pfx (map stext fl)). fold (has_flag g fl). rewrite <- !app_assoc.
+  destruct (sflag g f) eqn:E.
+  - rewrite (side_flag_here g f E), fs_here. reflexivity.
+  - rewrite fs_item_sep by (auto using flag_pat, side_flag_none).
+    rewrite is_some_pre, (IH Hok). reflexivity. Qed.
+Lemma flag_sfx : forall g fl, sides_ok fl -> is_some (fs (ftext g) (sfx (map stext fl))) = has_flag g fl.
+Proof. intros g fl. induction fl as [|f fl IH]; intros Hok; [destruct g; reflexivity|].
+  unfold sides_ok in Hok. cbn [forallb] in Hok. apply andb_true_iff in Hok as [Hf Hok].
+  cbn [map sfx flat_map has_flag existsb]. fold (sfx (map stext fl)). fold (has_flag g fl). rewrite <- !app_assoc.
+  rewrite fs_sep by apply flag_pat. rewrite is_some_pre.
+  destruct (sflag g f) eqn:E.
+  - rewrite (side_flag_here g f E), fs_here. reflexivity.
+  - pose proof (IH Hok) as Hs. destruct (sfx_shape (map stext fl)) as [E2 | [y E2]]; rewrite E2 in *.
+    + rewrite app_nil_r, (side_flag_none g f Hf E). cbn [orb]. rewrite <- Hs. destruct g; reflexivity.
+    + rewrite fs_app_q by (auto using side_flag_none; destruct g; reflexivity). rewrite is_some_pre. exact Hs. Qed.
+(* ------------------------------------------------------------------ one attribute: side items around a canonical validator *)
 Definition mid (r : bool) (o : nat) (omin omax omsg : option str) : str :=
   L (kwof r) ++ L " (" ++ cont (pieces o omin omax omsg) ++ L ")".
-Definition lr_items (pr : list flag) (r : bool) (o : nat) (omin omax omsg : option str) (po : list flag) : list item :=
-  map fitem pr ++ canon_item r (canon_args o omin omax omsg) :: map fitem po.
+Definition lr_items (pr : list side) (r : bool) (o : nat) (omin omax omsg : option str) (po : list side) : list item :=
+  map sitem pr ++ canon_item r (canon_args o omin omax omsg) :: map sitem po.
 Lemma tokens_lr : forall pr r o omin omax omsg po,
   items_tokens (lr_items pr r o omin omax omsg po) =
-  pfx (map ftext pr) ++ mid r o omin omax omsg ++ sfx (map ftext po).
+  pfx (map stext pr) ++ mid r o omin omax omsg ++ sfx (map stext po).
 Proof. intros. unfold lr_items. rewrite items_tokens_join, map_app. cbn [map]. rewrite !map_map.
   replace (item_text (canon_item r (canon_args o omin omax omsg))) with (mid r o omin omax omsg)
     by (symmetry; apply tokens_canon).
-  rewrite !(map_ext (fun x => item_text (fitem x)) ftext) by (intros [|]; reflexivity).
   apply join_around. Qed.
 
 Section Step.
 Variable dispf : str -> option str.
-Variables (pr po : list flag) (r : bool) (o : nat) (omin omax omsg : option str).
-Hypothesis (Hmin : okn omin) (Hmax : okn omax) (Hmsg : okm omsg).
+Variables (pr po : list side) (r : bool) (o : nat) (omin omax omsg : option str).
+Hypothesis (Hmin : okn omin) (Hmax : okn omax) (Hmsg : okm omsg) (Hpr : sides_ok pr) (Hpo : sides_ok po).
 Local Notation C := (cont (pieces o omin omax omsg)).
-Local Notation T := (pfx (map ftext pr) ++ mid r o omin omax omsg ++ sfx (map ftext po)).
+Local Notation T := (pfx (map stext pr) ++ mid r o omin omax omsg ++ sfx (map stext po)).
 
 Lemma kw_is_lr : forall b, lr_kw (kwof b).
 Proof. intros [|]; [right|left]; reflexivity. Qed.
-Lemma fs_kw_T : fs (L (kwof r)) T = Some (pfx (map ftext pr), L " (" ++ C ++ L ")" ++ sfx (map ftext po)).
-Proof. unfold mid. rewrite pfx_skip by apply kw_is_lr. rewrite <- !app_assoc. rewrite fs_here. cbn [pre]. rewrite app_nil_r. reflexivity. Qed.
+Lemma fs_kw_T : fs (L (kwof r)) T = Some (pfx (map stext pr), L " (" ++ C ++ L ")" ++ sfx (map stext po)).
+Proof. unfold mid. rewrite pfx_skip by (auto using kw_is_lr). rewrite <- !app_assoc. rewrite fs_here. cbn [pre]. rewrite app_nil_r. reflexivity. Qed.
 Lemma fs_okw_T : fs (L (kwof (negb r))) T = None.
-Proof. rewrite pfx_skip by apply kw_is_lr.
+Proof. rewrite pfx_skip by (auto using kw_is_lr).
   pose proof (no_kw_tokens (kwof (negb r)) r o omin omax omsg Hmin Hmax Hmsg ltac:(cbn; tauto)) as Hn. fold (mid r o omin omax omsg) in Hn.
-  destruct (sfx_shape po) as [-> | [y Hy]].
+  destruct (sfx_shape (map stext po)) as [-> | [y Hy]].
   - rewrite app_nil_r, Hn. reflexivity.
-  - pose proof (sfx_none _ (kw_is_lr (negb r)) po) as Hs. rewrite Hy in *.
+  - pose proof (sfx_none _ (kw_is_lr (negb r)) po Hpo) as Hs. rewrite Hy in *.
     rewrite fs_app_q by (auto; destruct r; reflexivity). rewrite Hs. reflexivity. Qed.
 Lemma flag_T : forall g, is_some (fs (ftext g) T) = has_flag g (pr ++ po).
-Proof. intros g. rewrite flag_pfx. unfold has_flag. rewrite existsb_app. f_equal.
+Proof. intros g. rewrite flag_pfx by exact Hpr. unfold has_flag. rewrite existsb_app. f_equal.
   assert (Hn : fs (ftext g) (mid r o omin omax omsg) = None).
   { destruct g; [apply (no_kw_tokens "email")|apply (no_kw_tokens "url")]; auto; cbn; tauto. }
-  pose proof (flag_sfx g po) as Hs. destruct (sfx_shape po) as [E | [y Hy]].
+  pose proof (flag_sfx g po Hpo) as Hs. destruct (sfx_shape (map stext po)) as [E | [y Hy]].
   - rewrite E in *. rewrite app_nil_r, Hn. destruct g; exact Hs.
   - rewrite Hy in *. rewrite fs_app_q by (auto; destruct g; reflexivity). rewrite is_some_pre. exact Hs. Qed.
 
 Lemma parse_hit : forall numf, parse_constraint (kwof r) numf T =
-  Ok (Some {| c_min := onum numf omin; c_max := onum numf omax; c_msg := omsg |}).
+  Ok (Some {| c_min := onum numf omin; c_max := onum numf omax; c_msg := option_map unescape omsg |}).
 Proof. intros numf. unfold parse_constraint, contains, paren_content. rewrite !find_sub_fs, fs_kw_T.
-  replace (L (kwof r) ++ L " (" ++ C ++ L ")" ++ sfx (map ftext po))
-    with ((L (kwof r) ++ L " ") ++ "(" :: (C ++ ")" :: sfx (map ftext po))) by (rewrite <- app_assoc; reflexivity).
+  replace (L (kwof r) ++ L " (" ++ C ++ L ")" ++ sfx (map stext po))
+    with ((L (kwof r) ++ L " ") ++ "(" :: (C ++ ")" :: sfx (map stext po))) by (rewrite <- app_assoc; reflexivity).
   rewrite after_char_app by (destruct r; reflexivity).
   rewrite find_char_app by (apply lacks_paren_cont; assumption). rewrite firstn_app_len.
   destruct (bounds_canon o omin omax omsg Hmin Hmax Hmsg) as [Bmin Bmax].
@@ -156,63 +209,70 @@ Proof. intros numf. unfold parse_constraint, contains. rewrite find_sub_fs, fs_o
 End Step.
 
 (* what one such attribute does to the accumulated ValidatorAttributes *)
-Definition lr_effect (dispf : str -> option str) (pr po : list flag) (r : bool) (omin omax omsg : option str) (v : vattrs) : vattrs :=
+Definition lr_effect (dispf : str -> option str) (pr po : list side) (r : bool) (omin omax omsg : option str) (v : vattrs) : vattrs :=
   let c := {| c_min := onum (if r then dispf else parse_u64) omin;
-              c_max := onum (if r then dispf else parse_u64) omax; c_msg := omsg |} in
+              c_max := onum (if r then dispf else parse_u64) omax; c_msg := option_map unescape omsg |} in
   {| v_length := if r then v_length v else Some c; v_range := if r then Some c else v_range v;
      v_email := v_email v || has_flag FE (pr ++ po); v_url := v_url v || has_flag FU (pr ++ po) |}.
-Lemma va_step_lr : forall dispf pr po r o omin omax omsg, okn omin -> okn omax -> okm omsg -> forall v,
-  va_step dispf v (pfx (map ftext pr) ++ mid r o omin omax omsg ++ sfx (map ftext po)) =
+Lemma va_step_lr : forall dispf pr po r o omin omax omsg, okn omin -> okn omax -> okm omsg -> sides_ok pr -> sides_ok po -> forall v,
+  va_step dispf v (pfx (map stext pr) ++ mid r o omin omax omsg ++ sfx (map stext po)) =
   Ok (lr_effect dispf pr po r omin omax omsg v).
-Proof. intros dispf pr po r o omin omax omsg Hmin Hmax Hmsg v. unfold va_step, contains. rewrite !find_sub_fs.
-  pose proof (flag_T pr po r o omin omax omsg Hmin Hmax Hmsg FE) as He.
-  pose proof (flag_T pr po r o omin omax omsg Hmin Hmax Hmsg FU) as Hu. cbn [ftext] in He, Hu. unfold is_some in He, Hu.
-  pose proof (parse_hit pr po r o omin omax omsg Hmin Hmax Hmsg) as Hh.
-  pose proof (parse_miss pr po r o omin omax omsg Hmin Hmax Hmsg) as Hm.
+Proof. intros dispf pr po r o omin omax omsg Hmin Hmax Hmsg Hpr Hpo v. unfold va_step, contains. rewrite !find_sub_fs.
+  pose proof (flag_T pr po r o omin omax omsg Hmin Hmax Hmsg Hpr Hpo FE) as He.
+  pose proof (flag_T pr po r o omin omax omsg Hmin Hmax Hmsg Hpr Hpo FU) as Hu. cbn [ftext] in He, Hu. unfold is_some in He, Hu.
+  pose proof (parse_hit pr po r o omin omax omsg Hmin Hmax Hmsg Hpr) as Hh.
+  pose proof (parse_miss pr po r o omin omax omsg Hmin Hmax Hmsg Hpr Hpo) as Hm.
   destruct r; cbn [kwof negb] in *; rewrite Hm, Hh; cbn [obind]; unfold lr_effect;
     match goal with |- context [fs (L "email") ?T] => destruct (fs (L "email") T), (fs (L "url") T) end;
     rewrite <- He, <- Hu; reflexivity. Qed.
 
-(* ------------------------------------------------------------------ an attribute made of flags only *)
-Definition flags_effect (fl : list flag) (v : vattrs) : vattrs :=
+(* ------------------------------------------------------------------ an attribute without length / range *)
+Definition flags_effect (fl : list side) (v : vattrs) : vattrs :=
   {| v_length := v_length v; v_range := v_range v;
      v_email := v_email v || has_flag FE fl; v_url := v_url v || has_flag FU fl |}.
-Lemma tokens_flags : forall fl, items_tokens (map fitem fl) =
-  match fl with [] => [] | f :: fl' => ftext f ++ sfx (map ftext fl') end.
+Lemma tokens_flags : forall fl, items_tokens (map sitem fl) =
+  match fl with [] => [] | f :: fl' => stext f ++ sfx (map stext fl') end.
 Proof. intros fl. rewrite items_tokens_join, map_map.
-  rewrite (map_ext (fun x => item_text (fitem x)) ftext) by (intros [|]; reflexivity).
-  destruct fl as [|f fl]; [reflexivity|]. cbn [map]. apply join_mid_sfx. Qed.
-Lemma flags_no_lr : forall p, lr_kw p -> forall fl, fs (L p) (items_tokens (map fitem fl)) = None.
-Proof. intros p Hp fl. rewrite tokens_flags. destruct fl as [|f fl]; [destruct Hp as [-> | ->]; reflexivity|].
-  destruct (sfx_shape fl) as [E | [y E]]; rewrite E.
-  - rewrite app_nil_r. destruct Hp as [-> | ->]; destruct f; vm_compute; reflexivity.
-  - rewrite fs_app_q by (destruct Hp as [-> | ->]; destruct f; vm_compute; reflexivity).
-    rewrite <- E, (sfx_none p Hp fl). reflexivity. Qed.
-Lemma flags_flag : forall g fl, is_some (fs (ftext g) (items_tokens (map fitem fl))) = has_flag g fl.
-Proof. intros g fl. rewrite tokens_flags. destruct fl as [|f fl]; [destruct g; reflexivity|].
-  cbn [has_flag existsb]. fold (has_flag g fl). destruct (flag_eqb g f) eqn:E.
-  - assert (g = f) by (destruct g, f; try discriminate; reflexivity). subst f. rewrite fs_here. reflexivity.
-  - rewrite fs_app_clean by (destruct g, f; try discriminate E; vm_compute; reflexivity).
-    rewrite is_some_pre. apply flag_sfx. Qed.
-Lemma va_step_flags : forall dispf fl v, va_step dispf v (items_tokens (map fitem fl)) = Ok (flags_effect fl v).
-Proof. intros dispf fl v. unfold va_step, parse_constraint, contains. rewrite !find_sub_fs.
-  rewrite (flags_no_lr "length" (or_introl eq_refl)), (flags_no_lr "range" (or_intror eq_refl)). cbn [obind].
-  pose proof (flags_flag FE fl) as He. pose proof (flags_flag FU fl) as Hu. cbn [ftext] in He, Hu. unfold is_some in He, Hu.
+  destruct fl as [|f fl]; [reflexivity|]. cbn [map]. fold stext. rewrite <- (map_map sitem item_text). fold stext.
+  rewrite (map_map sitem item_text). apply join_mid_sfx. Qed.
+Lemma flags_no_lr : forall p, lr_kw p -> forall fl, sides_ok fl -> fs (L p) (items_tokens (map sitem fl)) = None.
+Proof. intros p Hp fl Hok. rewrite tokens_flags. destruct fl as [|f fl]; [destruct Hp as [-> | ->]; reflexivity|].
+  unfold sides_ok in Hok. cbn [forallb] in Hok. apply andb_true_iff in Hok as [Hf Hok].
+  destruct (sfx_shape (map stext fl)) as [E | [y E]]; rewrite E.
+  - rewrite app_nil_r. apply side_no_lr; assumption.
+  - rewrite fs_app_q by (auto using side_no_lr; destruct Hp as [-> | ->]; reflexivity).
+    rewrite <- E, (sfx_none p Hp fl Hok). reflexivity. Qed.
+Lemma flags_flag : forall g fl, sides_ok fl -> is_some (fs (ftext g) (items_tokens (map sitem fl))) = has_flag g fl.
+Proof. intros g fl Hok. rewrite tokens_flags. destruct fl as [|f fl]; [destruct g; reflexivity|].
+  unfold sides_ok in Hok. cbn [forallb] in Hok. apply andb_true_iff in Hok as [Hf Hok].
+  cbn [has_flag existsb]. fold (has_flag g fl). destruct (sflag g f) eqn:E.
+  - rewrite (side_flag_here g f E), fs_here. reflexivity.
+  - pose proof (flag_sfx g fl Hok) as Hs. destruct (sfx_shape (map stext fl)) as [E2 | [y E2]]; rewrite E2 in *.
+    + rewrite app_nil_r, (side_flag_none g f Hf E). cbn [orb]. rewrite <- Hs. destruct g; reflexivity.
+    + rewrite fs_app_q by (auto using side_flag_none; destruct g; reflexivity). rewrite is_some_pre. exact Hs. Qed.
+Lemma va_step_flags : forall dispf fl v, sides_ok fl -> va_step dispf v (items_tokens (map sitem fl)) = Ok (flags_effect fl v).
+Proof. intros dispf fl v Hok. unfold va_step, parse_constraint, contains. rewrite !find_sub_fs.
+  rewrite (flags_no_lr "length" (or_introl eq_refl)), (flags_no_lr "range" (or_intror eq_refl)) by exact Hok. cbn [obind].
+  pose proof (flags_flag FE fl Hok) as He. pose proof (flags_flag FU fl Hok) as Hu. cbn [ftext] in He, Hu. unfold is_some in He, Hu.
   unfold flags_effect. destruct (fs (L "email") _), (fs (L "url") _); rewrite <- He, <- Hu; reflexivity. Qed.
 
 (* ------------------------------------------------------------------ the loop over the attributes of a field *)
 Inductive sattr :=
-| SLr (pr : list flag) (r : bool) (o : nat) (omin omax omsg : option str) (po : list flag)   (* #[validate(flags, length|range(..), flags)] *)
-| SFlags (fl : list flag)                                                                 (* #[validate(flags)], #[validate()] *)
+| SLr (pr : list side) (r : bool) (o : nat) (omin omax omsg : option str) (po : list side)   (* #[validate(sides, length|range(..), sides)] *)
+| SFlags (fl : list side)                                                                 (* #[validate(sides)], #[validate()] *)
 | SPath                                                                                   (* #[validate] *)
 | SOther.                                                                                 (* not a validate attribute *)
 Definition attr_of (s : sattr) : attr :=
   match s with
   | SLr pr r o a b m po => AValidate (lr_items pr r o a b m po)
-  | SFlags fl => AValidate (map fitem fl)
+  | SFlags fl => AValidate (map sitem fl)
   | SPath => AValidatePath
   | SOther => ANotValidate end.
-Definition sattr_ok (s : sattr) : Prop := match s with SLr _ _ _ a b m _ => okn a /\ okn b /\ okm m | _ => True end.
+Definition sattr_ok (s : sattr) : Prop :=
+  match s with
+  | SLr pr _ _ a b m po => okn a /\ okn b /\ okm m /\ sides_ok pr /\ sides_ok po
+  | SFlags fl => sides_ok fl
+  | _ => True end.
 Definition is_val (s : sattr) : bool := match s with SOther => false | _ => true end.
 Definition effect (dispf : str -> option str) (v : vattrs) (s : sattr) : vattrs :=
   match s with
@@ -226,9 +286,9 @@ Lemma va_fold_loop : forall dispf ss v found, Forall sattr_ok ss ->
 Proof. intros dispf ss. induction ss as [|s ss IH]; intros v found Hok.
   - cbn [map va_fold existsb fold_left]. rewrite orb_false_r. reflexivity.
   - inversion Hok as [|? ? Hs Hss]; subst. cbn [map existsb fold_left]. destruct s as [pr r o a b m po|fl| |]; cbn [attr_of attr_view va_fold is_val effect].
-    + destruct Hs as [Ha [Hb Hm]]. rewrite tokens_lr, va_step_lr by assumption. cbn [obind]. rewrite IH by exact Hss.
+    + destruct Hs as [Ha [Hb [Hm [Hpr Hpo]]]]. rewrite tokens_lr, va_step_lr by assumption. cbn [obind]. rewrite IH by exact Hss.
       rewrite orb_true_r. reflexivity.
-    + rewrite va_step_flags. cbn [obind]. rewrite IH by exact Hss. rewrite orb_true_r. reflexivity.
+    + rewrite va_step_flags by exact Hs. cbn [obind]. rewrite IH by exact Hss. rewrite orb_true_r. reflexivity.
     + rewrite IH by exact Hss. rewrite orb_true_r. reflexivity.
     + rewrite IH by exact Hss. rewrite orb_false_l. reflexivity. Qed.
 
@@ -270,3 +330,51 @@ Proof. intros dispf ss1 ss2 Hok Hv. pose proof Hok as Hok1. apply Forall_app in 
   exists (fold_left (effect dispf) ss1 va_init), (fold_left (effect dispf) (ss1 ++ ss2) va_init).
   rewrite !loop_exact by assumption. rewrite existsb_app, Hv. cbn [orb]. split; [reflexivity|]. split; [reflexivity|].
   rewrite fold_left_app. apply fold_keeps. Qed.
+
+(* the side condition is exact: a token string that does contain one of the four keywords is NOT inert -
+   the flag is set, respectively the length / range slot is occupied, whatever else the attribute holds *)
+Theorem keyword_not_inert : forall dispf v T v', va_step dispf v T = Ok v' ->
+  (contains "email"%string T = true -> v_email v' = true) /\ (contains "url"%string T = true -> v_url v' = true) /\
+  (contains "length"%string T = true -> v_length v' <> None) /\ (contains "range"%string T = true -> v_range v' <> None).
+Proof. intros dispf v T v' H. unfold va_step in H.
+  destruct (parse_constraint "length"%string parse_u64 T) as [|l] eqn:El; [discriminate H|].
+  destruct (parse_constraint "range"%string dispf T) as [|r] eqn:Er; [discriminate H|]. cbn [obind] in H.
+  inversion H; subst; clear H. cbn [v_email v_url v_length v_range].
+  split; [intros Hc; rewrite Hc; apply orb_true_r|]. split; [intros Hc; rewrite Hc; apply orb_true_r|].
+  split; intros Hc.
+  - unfold parse_constraint in El. rewrite Hc in El. destruct (paren_content "length"%string T).
+    + destruct (parse_message s) as [|m]; cbn [obind] in El; [discriminate El|]. inversion El; subst. discriminate.
+    + inversion El; subst. discriminate.
+  - unfold parse_constraint in Er. rewrite Hc in Er. destruct (paren_content "range"%string T).
+    + destruct (parse_message s) as [|m]; cbn [obind] in Er; [discriminate Er|]. inversion Er; subst. discriminate.
+    + inversion Er; subst. discriminate. Qed.
+
+(* ... and a keyword inside one item of an attribute is a keyword inside the attribute's token string *)
+Lemma starts_app_r : forall p x y, starts p x = true -> starts p (x ++ y) = true.
+Proof. induction p as [|a p IH]; intros [|b x] y H; cbn [starts app] in *; try reflexivity; try discriminate H.
+  apply andb_true_iff in H as [H1 H2]. rewrite H1, (IH x y H2). reflexivity. Qed.
+Lemma fs_some_app_r : forall p x y, is_some (fs p x) = true -> is_some (fs p (x ++ y)) = true.
+Proof. induction x as [|a x IH]; intros y H.
+  - cbn [fs] in H. destruct p as [|c p]; [|discriminate H]. cbn [app]. rewrite fs_unfold. reflexivity.
+  - rewrite fs_unfold in H. cbn [app]. rewrite fs_unfold. destruct (starts p (a :: x)) eqn:E.
+    + change (a :: x ++ y) with ((a :: x) ++ y). rewrite (starts_app_r _ _ y E). reflexivity.
+    + rewrite is_some_pre in H. destruct (starts p (a :: x ++ y)); [reflexivity|]. rewrite is_some_pre. apply IH. exact H. Qed.
+Lemma fs_some_app_l : forall p a x, is_some (fs p x) = true -> is_some (fs p (a ++ x)) = true.
+Proof. induction a as [|c a IH]; intros x H; [exact H|]. cbn [app]. rewrite fs_unfold.
+  destruct (starts p (c :: a ++ x)); [reflexivity|]. rewrite is_some_pre. apply IH. exact H. Qed.
+Lemma join_has : forall sep (X : str) xs, In X xs -> exists A B, join sep xs = A ++ X ++ B.
+Proof. intros sep X. induction xs as [|x xs IH]; intros Hin; [contradiction|].
+  destruct xs as [|x2 xs].
+  - destruct Hin as [->|[]]. exists [], []. cbn [join app]. rewrite app_nil_r. reflexivity.
+  - rewrite join_cons by discriminate. destruct Hin as [->|Hin].
+    + exists [], (sep ++ join sep (x2 :: xs)). reflexivity.
+    + destruct (IH Hin) as [A [B E]]. exists (x ++ sep ++ A), B. rewrite E, <- !app_assoc. reflexivity. Qed.
+Theorem keyword_in_item : forall fl s (kw : string), In s fl -> contains kw (stext s) = true ->
+  contains kw (items_tokens (map sitem fl)) = true.
+Proof. intros fl s kw Hin Hc. rewrite items_tokens_join, map_map.
+  destruct (join_has (L " , ") (stext s) (map (fun x => item_text (sitem x)) fl)) as [A [B E]].
+  { apply in_map_iff. exists s. split; [reflexivity|exact Hin]. }
+  rewrite E. unfold contains in *. rewrite find_sub_fs in *.
+  assert (H : is_some (fs (L kw) (A ++ stext s ++ B)) = true).
+  { apply fs_some_app_l, fs_some_app_r. destruct (fs (L kw) (stext s)); [reflexivity|discriminate Hc]. }
+  destruct (fs (L kw) (A ++ stext s ++ B)); [reflexivity|discriminate H]. Qed.
